@@ -292,13 +292,22 @@ pub fn run(ctx: &Ctx) -> Report {
             let (w, full) = logged_search(&board, d, None, None);
             if full.panicked.is_none() && full.nodes > 20_000 {
                 for ms in [1u128, 2, 3, 5] {
-                    for kind in ["movetime", "clock"] {
+                    for kind in ["movetime", "clock", "clock-uneven"] {
                         let limits = if kind == "movetime" {
                             SearchLimits::new().movetime(Some(ms))
-                        } else {
+                        } else if kind == "clock" {
                             // timer = time/20 + inc/2
                             SearchLimits::new().white_time(Some(ms * 20)).black_time(Some(ms * 20))
+                        } else {
+                            // the two sides' clocks differ widely (only the mover's matters)
+                            let (mine, theirs) = (ms * 20, 3_600_000u128);
+                            if board.current_turn == crate::board::piece::Color::White {
+                                SearchLimits::new().white_time(Some(mine)).black_time(Some(theirs))
+                            } else {
+                                SearchLimits::new().white_time(Some(theirs)).black_time(Some(mine))
+                            }
                         };
+                        let kind = if kind == "clock-uneven" { "clock" } else { kind };
                         let (l, _r) = logged_search(&board, d, Some(limits), None);
                         rep.eval(1);
                         rep.class(&format!("cut:{kind}"));
